@@ -37,8 +37,8 @@ def run(ctx):
         ctx.violation("data race %s" % " vs ".join(locs), "the race detector reports %d data race(s) in IPv4Filter, first:\n%s" % (races, first[:1800]),
                       {"stderr": p.stderr[:6000]})
     rows = vlib.read_ndjson(ctx.path("traces.ndjson"))
-    slim = [{"evs": c["evs"]} for c in rows]
-    bad, _, _ = judge(ctx, "netutil", "IPv4FilterConcCases", slim, nshards=min(16, len(rows)), workers=1, timeout=2400,
+    slim = vlib.balanced([{"evs": c["evs"]} for c in rows], 15, lambda c: len(c["evs"]))
+    bad, drift, _ = judge(ctx, "netutil", "IPv4FilterConcCases", slim, nshards=min(15, len(rows)), workers=1, timeout=2400,
                       constants="CONSTANTS\n  W = 32\n  ListSize = 256\n", xmx="4g")
     for c in bad[:10]:
         k = int(c.get("_info") or 1)
@@ -57,6 +57,11 @@ def run(ctx):
             what = "%s(%s/%d) returned an error" % (e.get("op"), bits_ip(e["c"]), len(e["c"]))
             sig = "update rejected"
         ctx.violation(sig, what, {"event": e, "index": k, "window": c["evs"][max(0, k - 12):k]})
+    if drift and not ctx.violations:
+        ctx.level = "exploration"
+        msg = "%d traces: a lookup differs from the result predicted by the order of the critical sections (lp events)" % len(drift)
+        ctx.notes.append("DRIFT: " + msg)
+        print("DRIFT property=C12 " + msg)
     nev = sum(len(c["evs"]) for c in rows)
     nre = sum(1 for c in rows for e in c["evs"] if e["k"] == "re")
     ctx.cov.update({
@@ -67,6 +72,7 @@ def run(ctx):
                 "critical sections and in the half-migrated state; -race build; non-trivial = runs that crossed the switch" % len(rows),
         "exhaustive": False, "events": nev, "lookups_judged": nre, "race_reports": races,
         "runs_crossing_switch": sum(1 for c in rows if c["maps"]),
+        "lp_events": sum(1 for c in rows for e in c["evs"] if e["k"] == "lp"), "lp_conformance_drift": len(drift),
     })
     ctx.sample({"events": rows[0]["evs"][400:406], "note": rows[0].get("note")})
     ctx.assumptions += ["event order = a global atomic sequence number taken at emission (consistent with happens-before)",
